@@ -87,8 +87,10 @@ def run_c11(ctx):
                     want = ["missing-sources", ms] if ms else ["missing-targets", mt]
                     if impl[0] == "closed": ctx.fail("C11/open-graph-accepted", case, "expected %r" % (want,))
                     elif impl != want: ctx.fail("C11/message", case, "message says %r, expected %r" % (impl, want))
-                # look-ups on the built graph
+                # look-ups on the built graph (every other graph held with other row labels / row order)
                 if G is not None:
+                    import writeprops
+                    _, G = writeprops.graph_variant(G, random.Random(ci), kinds=["as-parsed", "permuted", "relabelled"])
                     gn2 = [[int(r["id"]), r["NodeClass"], r["BrowseName"], r["DisplayName"], [], []] for _, r in G.nodes.iterrows()]
                     names = sorted(set(n[2] for n in gn2))
                     # the first and the last node of the table (ids 0 and max), untyped and by their own class, then a typed look-up followed by
